@@ -33,6 +33,9 @@ TB_CPS = [0x0b, 0x0c, 0x1c, 0x1d, 0x1e, 0x85, 0x2028, 0x2029]
 TB_UNITS = [chr(_c).encode('utf-8') for _c in TB_CPS]
 # bytes the driver's recogniser and json.loads also agree on (the UTF-8 bytes of the above)
 JL_ALLOWED |= set(b'\x1c\x1d\x1e\xe2\x80\xa8\xa9\xc2\x85')
+# Unicode white space that str.lstrip() removes (text-mode lines) but bytes.lstrip() / JSON do not
+UWS_CPS = [0x1c, 0x1d, 0x1e, 0x1f, 0x85, 0xa0, 0x1680, 0x2000, 0x2001, 0x2005, 0x200a, 0x2028, 0x2029, 0x202f, 0x205f, 0x3000]
+JL_ALLOWED |= set(b''.join(chr(_c).encode('utf-8') for _c in UWS_CPS))
 ASCII_WS = ' \t\n\r\x0b\x0c'
 JSON_WS = b' \t\n\r'
 # lines json.loads rejects with something else than JSONDecodeError (or accepts surprisingly)
@@ -227,16 +230,24 @@ class C19(Property):
             # table lemma (stripSets_denote) and everything resting on it stops checking
             print('note: strip-set probe failed: %r' % (e,))
             lset, rset = [], []
+        try:
+            tset = self.probe_text_lstrip()
+        except (Exception, CaseTimeout) as e:
+            print('note: text-mode strip-set probe failed: %r' % (e,))
+            tset = []
         self._strip = (lset, rset)
+        self._tset = tset
         out['C19_StripSets.lean'] = (
             '/- GENERATED by harness/bv/props/c19.py (regen) by running boltons.jsonutils.JSONLIterator on one-record\n'
             '   probe files (one per byte value) with json.loads replaced by a recorder - do not edit.\n'
             '   lstripSet : the bytes JSONLIterator.next removes from the front of a line before json.loads sees it\n'
-            '   rstripSet : the bytes it removes from the end of a line -/\n'
+            '   rstripSet : the bytes it removes from the end of a line\n'
+            '   lstripSetT: the characters (code points) it removes from the front of a line of a TEXT-mode file -/\n'
             'namespace C19.Generated\n\n'
             'def lstripSet : List Nat := [%s]\n\n'
             'def rstripSet : List Nat := [%s]\n\n'
-            'end C19.Generated\n' % (', '.join(map(str, lset)), ', '.join(map(str, rset))))
+            'def lstripSetT : List Nat := [%s]\n\n'
+            'end C19.Generated\n' % (', '.join(map(str, lset)), ', '.join(map(str, rset)), ', '.join(map(str, tset))))
         sset = [c for c in range(0x110000)
                 if not 0xd800 <= c < 0xe000 and len(('a' + chr(c) + 'b').splitlines()) != 1]
         bset = [c for c in range(256) if len((b'a' + bytes([c]) + b'b').splitlines()) != 1]
@@ -251,6 +262,43 @@ class C19(Property):
             'def bytesBreakSet : List Nat := [%s]\n\n'
             'end C19.Generated\n' % (', '.join(map(str, sset)), ', '.join(map(str, bset))))
         return out
+
+    @staticmethod
+    def probe_text_lstrip():
+        """the same for text-mode files (lines are str): which characters does next() take off the front of a line?
+        Probed on every code point below U+3100 and on every character str.lstrip / str.isspace know about."""
+        import json as _json
+        from boltons import jsonutils
+        cands = set(range(0x3100)) | {c for c in range(0x3100, 0x110000)
+                                      if not 0xd800 <= c < 0xe000 and (chr(c).isspace() or (chr(c) + 'Q').lstrip() == 'Q')}
+        cands -= set(range(0xd800, 0xe000))
+        seen = []
+
+        def recorder(s, *a, **kw):
+            seen.append(s)
+            return 0
+        saved = _json.loads
+        saved_local = jsonutils.__dict__.get('loads')
+        tset = []
+        try:
+            _json.loads = recorder
+            if saved_local is saved:
+                jsonutils.loads = recorder
+            with time_limit(30):
+                for c in sorted(cands):
+                    del seen[:]
+                    f = io.TextIOWrapper(io.BytesIO((chr(c) + 'Q\n').encode('utf-8')), encoding='utf-8')
+                    for _ in jsonutils.JSONLIterator(f, ignore_errors=True):
+                        pass
+                    if seen == ['Q']:
+                        tset.append(c)
+                    elif seen != [chr(c) + 'Q']:
+                        raise ValueError('JSONLIterator handed json.loads %r for the text probe U+%04X' % (seen, c))
+        finally:
+            _json.loads = saved
+            if saved_local is saved:
+                jsonutils.loads = saved
+        return tset
 
     @staticmethod
     def probe_strip_sets():
@@ -300,7 +348,7 @@ class C19(Property):
         lset, rset = getattr(self, '_strip', ([], []))
         sset, bset = getattr(self, '_pysplit', ([], []))
         want = ('E' + show_lines(alts, show_cps) + ' L' + show_cps(lset) + ' R' + show_cps(rset)
-                + ' S' + show_cps(sset) + ' B' + show_cps(bset))
+                + ' T' + show_cps(getattr(self, '_tset', [])) + ' S' + show_cps(sset) + ' B' + show_cps(bset))
         if got != want:
             raise InfraError('driver was built with tables %s, translator read %s' % (got, want))
         return []
@@ -391,6 +439,7 @@ class C19(Property):
                 for ign in (1, 0):
                     yield {'k': 'jl', 'c': hx(c), 'mode': mode, 'ign': ign}
         yield from self.tbreak_jl()
+        yield from self.uws_jl()
         yield from self.odd_error_jl()
         yield from self.long_jl(rng)
         yield from self.ratio_rl()
@@ -427,6 +476,21 @@ class C19(Property):
                         for mode in ('t', 'b'):
                             yield {'k': 'jl', 'c': hx(c), 'mode': mode, 'ign': 1}
                         yield {'k': 'jl', 'c': hx(c), 'mode': 't', 'ign': 0}
+
+    def uws_jl(self):
+        """lines LED by a character str.lstrip() removes but bytes.lstrip() and JSON do not (FS GS RS US NEL NBSP
+        U+1680 U+2000.. LS PS U+202F U+205F U+3000): in a text-mode file such a line is the record behind the
+        character (or blank), in a binary file it is corrupt; also trailing (never stripped) and in the middle"""
+        for cp in UWS_CPS:
+            X = chr(cp).encode('utf-8')
+            for lines in ([X + b'1'], [b' ' + X + b'\t20'], [X], [X + X + b'"x"', b'7'], [b'1', X + b'20', b''],
+                          [b'1' + X], [b'[' + X + b']'], [b'7', X, b'{x']):
+                for sep, end in ((b'\n', b'\n'), (b'\r\n', b'')):
+                    c = sep.join(lines) + end
+                    for mode in ('t', 'b'):
+                        yield {'k': 'jl', 'c': hx(c), 'mode': mode, 'ign': 1}
+                    yield {'k': 'jl', 'c': hx(c), 'mode': 't', 'ign': 0}
+            yield {'k': 'jl', 'c': hx(b'1\n' + X + b'20\n'), 'mode': 'tf', 'ign': 1}
 
     def odd_error_jl(self):
         """corrupt records on which json.loads raises UnicodeDecodeError (also via UTF-16/32 detection),
@@ -803,6 +867,8 @@ class C19(Property):
         else:   # byte soup over the allowed alphabet
             alpha = [b'0', b'1', b'2', b'7', b'-', b'"', b'x', b' ', b'\t', b'\n', b'\n', b'\n', b'\r\n', b'\r',
                      b'\x0b', b'{', b'}', b'[', b']', b'\xc3\xa9', b'\xc3', b'\xa9']
+            if rng.random() < 0.3:
+                alpha = alpha + [chr(rng.choice(UWS_CPS)).encode('utf-8') for _ in range(3)]
             c = b''.join(rng.choice(alpha) for _ in range(rng.randint(0, 14)))
         if mode == 't' and not self.decodable(c):
             mode = 'b'
@@ -913,9 +979,8 @@ class C19(Property):
             # json.loads has limits the recogniser has not: nesting depth, 4300 digits
             if b'[' * 100 in c or _DIGIT_RUN.search(c):
                 return None
-            text = case['mode'][0] == 't'
-            # the model strips what bytes.lstrip strips; str.lstrip strips more
-            if text and any(l.lstrip() != l.lstrip(ASCII_WS) for l in c.decode('utf-8').split('\n')):
+            # text mode: the model decodes the content and strips what str.lstrip strips (table lstripSetT)
+            if case['mode'][0] == 't' and not self.decodable(c):
                 return None
             return 'jl %s %d %s' % (case['mode'][0], case['ign'], hx(c))
         return None
